@@ -245,6 +245,19 @@ pub fn run(ctx: &Ctx, reg: &Registry) -> i32 {
                             }
                         }
                     }
+                    if nd > 0 {
+                        for script in policies() {
+                            let r = run_case(s, &case.payload, src, script.clone());
+                            account(&mut acc, s, &case, &r);
+                            acc.count("policy_scripts_checked");
+                            if let Some(f) = after_break_rule(&r) {
+                                fail(&mut acc, script.clone(), &r, f);
+                            }
+                            if let Some(f) = field_conversion_stop_rule(reg, s, &case.payload, &r) {
+                                fail(&mut acc, script, &r, f);
+                            }
+                        }
+                    }
                     for j in 0..n_rand {
                         let sd = ctx.seed.wrapping_mul(7919) ^ (i << 10) ^ j;
                         let script = if j % 2 == 0 { Script::Bits(sd) } else { Script::Coin(sd) };
